@@ -1,8 +1,12 @@
 import Driver.Proto
 import Driver.Ops.Kern
+import Driver.Ops.Lattice
+import Driver.Ops.Stereo
 import Driver.Ops.NDArray
 import Driver.Ops.XMap
 import Driver.Ops.Grp
+import Driver.Ops.Sec
+import Driver.Ops.Codec
 /-
 Line-protocol driver.  One request per line (`<op> <args…>`), one response line per request.
 Each op family lives in its own module `Driver/Ops/*.lean` exposing `handle : List String → String`
@@ -12,9 +16,15 @@ namespace Orix.Driver
 
 def handlers : List (String × (List String → String)) := [
   ("kern", Kern.handle),
+  ("lat", Lat.handle),
+  ("stereo", St.handleStereo),
+  ("hist", St.handleHist),
   ("nd", ND.handle),
+  ("uniq", Uniq.handle),
   ("xmap", XMapOp.handle),
-  ("grp", Grp.handle)
+  ("grp", Grp.handle),
+  ("sec", Sec.handle),
+  ("codec", Codec.handle)
 ]
 
 def step (line : String) : String :=
